@@ -326,9 +326,13 @@ META = {
                   'only existing positions for every int/slice/list expression, pads missing axes, rejects too many '
                   '(int_index_*, slice_*, normalize_indices_*); rank_1_update and one aca cross step annihilate the '
                   'residual on the pivot row and column (aca_step_exact_on_cross_*); exact rank 1 is reproduced by one '
-                  'cross (aca_rank_reduction_partial). Not proved, tie only: squeeze, Tucker->canonical, the apply_tprod '
-                  'loop, generator ravel order, pad, operator slice, truncation bound, greedy monotonicity, rank-r '
-                  'Wedderburn. Tie: each step of ~450 (thorough 2500) random operation sequences (length <= 8, orders 1-4, '
+                  'cross (aca_rank_reduction_partial); round 2: CanonicalTensor.__getitem__ in full for every accepted index '
+                  'expression (canon_getitem), squeeze of canonical and Tucker tensors, Tucker->canonical (tucker_to_canon), '
+                  'the rotate-and-contract loop of apply_tprod equals the multi-way product (apply_tprod_loop), modek_tprod, '
+                  'pad (pad_spec*), operator slice (canop_slice), and find_truncation_rank never discards more than tol^2: '
+                  'discarded squared norm = accumulated error and tol^2 < error is false (truncation_error_bound). Not '
+                  'proved, tie only: Tucker __getitem__ assembled, generator ravel order, greedy monotonicity, rank-r '
+                  'Wedderburn, isometry of orthonormal factors. Tie: each step of ~450 (thorough 2500) random operation sequences (length <= 8, orders 1-4, '
                   'singleton axes, rank 0, mixed formats, malformed stream) is replayed by the model at R=Z on the '
                   'structures the implementation produced: factor matrices, cores, scalars and error classes compared '
                   'exactly; likewise _normalize_indices, TensorGenerator accesses, CanonicalOperator algebra and the '
